@@ -231,6 +231,87 @@ def retest(group, props):
                   {k: v["verdict"] for k, v in r["props"].items()}, r["tie"], "|", cl[r["idx"]]["reason"][:90])
 
 
+def patch_one(args):
+    """a patch file (git diff) instead of a point mutation: same run as phase2_one"""
+    name, patch = args
+    s_ = slot()
+    wd = "%s/w%d" % (TMP, s_)
+    sh(["rsync", "-a", "--delete", "--exclude", ".git", "/repo/", wd + "/"])
+    rc, out = sh(["patch", "-p1", "-s", "-i", patch], cwd=wd)
+    res = {"name": name, "tie": [], "props": {}}
+    if rc != 0:
+        res["patch_failed"] = out[-300:]
+        return res
+    rc, out = sh(["go", "test", "-vet=off", "-count=1", "./..."], cwd=wd, timeout=600)
+    res["suite_ok"] = rc == 0
+    m = {"file": "", "start": 0, "end": 0, "new": "", "old": ""}
+    global make_copy
+    return dict(res, **_run_against(wd, s_))
+
+
+def _run_against(wd, s_):
+    res = {"tie": [], "props": {}}
+    hz = "%s/h%d" % (TMP, s_)
+    g = "%s/g%d" % (TMP, s_)
+    shutil.rmtree(g, ignore_errors=True); os.makedirs(g)
+    rc, out = sh([os.path.join(ROOT, "extract", "extract"), wd, g], timeout=120)
+    if rc != 0:
+        res["tie"].append("extract-fails-closed: " + out.strip()[-200:])
+    else:
+        for fn in sorted(os.listdir(os.path.join(CASES, "gen-clean"))):
+            a = open(os.path.join(CASES, "gen-clean", fn)).read()
+            b = open(os.path.join(g, fn)).read() if os.path.exists(os.path.join(g, fn)) else ""
+            if a != b:
+                res["tie"].append(fn)
+    shutil.rmtree(hz, ignore_errors=True); os.makedirs(hz)
+    for fn in os.listdir(os.path.join(ROOT, "harness")):
+        if fn.endswith(".go") or fn in ("go.mod", "go.sum"):
+            shutil.copy(os.path.join(ROOT, "harness", fn), hz)
+    import re
+    gm = open(os.path.join(hz, "go.mod")).read()
+    gm = re.sub(r"(replace github.com/asticode/go-astits => ).*", r"\g<1>" + wd, gm)
+    open(os.path.join(hz, "go.mod"), "w").write(gm)
+    rc, out = sh(["go", "build", "-tags", "verif", "-o", "harness", "."], cwd=hz, timeout=600)
+    if rc != 0:
+        res["harness_build"] = out[-500:]
+        return res
+    for p in PROPS:
+        with open(os.path.join(CASES, "cases", p + ".jsonl")) as f:
+            try:
+                pr = subprocess.run([os.path.join(hz, "harness"), "-max-mismatches", "1000"], stdin=f, stdout=subprocess.PIPE, stderr=subprocess.DEVNULL,
+                                    env=dict(GOENV, GOMAXPROCS="2"), timeout=300, text=True)
+                sm = json.loads(pr.stdout.strip().splitlines()[-1])
+            except Exception as e:
+                res["props"][p] = {"verdict": "crash"}; continue
+        judge = corr = 0
+        for mm in sm.get("mismatches") or []:
+            if mm["kind"] == "judge":
+                if not ((p, mm["cls"]) in OPEN and mm["impl"] == mm["model"]):
+                    judge += 1
+            else:
+                corr += 1
+        res["props"][p] = {"verdict": "replay" if judge else ("corr" if corr else "ok"), "judge": judge, "corr": corr}
+    return res
+
+
+def refactor(dirs):
+    """harmless-refactoring round: every patchK.diff under the given directories"""
+    global OPEN
+    OPEN = open_classes()
+    os.makedirs(TMP, exist_ok=True)
+    todo = []
+    for d in dirs:
+        for k in (1, 2, 3):
+            pth = os.path.join(d, "patch%d.diff" % k)
+            if os.path.exists(pth):
+                todo.append((os.path.basename(d) + "-%d" % k, pth))
+    with mp.Pool(8) as pool, open(os.path.join(RES, "refactor.jsonl"), "a") as f:
+        for r in pool.imap_unordered(patch_one, todo):
+            f.write(json.dumps(r) + "\n"); f.flush()
+            bad = {k: v["verdict"] for k, v in r["props"].items() if v["verdict"] != "ok"}
+            print(r["name"], "suite_ok=%s" % r.get("suite_ok"), "tie=%s" % r["tie"], "props=%s" % bad, r.get("patch_failed", ""), r.get("harness_build", "")[:200], flush=True)
+
+
 def verdict(r):
     vs = [v["verdict"] for v in r["props"].values()]
     if "replay" in vs: return "replay"
@@ -263,4 +344,5 @@ if __name__ == "__main__":
     elif c == "phase2": phase2(sys.argv[3] if len(sys.argv) > 3 and sys.argv[2] == "--only" else None)
     elif c == "phase2b": phase2b()
     elif c == "retest": retest(sys.argv[2], sys.argv[3].split(","))
+    elif c == "refactor": refactor(sys.argv[2:])
     elif c == "report": report()
